@@ -1,15 +1,68 @@
 """C12 -- heap walking reports exactly the live blocks (DESIGN.md section 3, C12)."""
 import vlib, apitrace
+from vlib import log
+
+def run_walk(res, a):
+    """the walk with a refusing visitor (Model/Walk.v, Properties/C12walk.v): harness/t_walk.c against the extracted walk_stop_at"""
+    import os, collections
+    exe = os.path.join(vlib.BUILD, "t_walk_C12")
+    ok, txt, cmd = vlib.cc(os.path.join(vlib.HARN, "t_walk.c"), exe)
+    if not ok:
+        res.violation("harness-build:t_walk", "harness/t_walk.c no longer compiles against the current tree: " + txt[-1200:])
+        return
+    okb, txt = vlib.ocaml_build()
+    if not okb:
+        res.violation("model-build", "extracted model does not build: " + txt[-1200:])
+        return
+    big = a.tier == "thorough"
+    tot = collections.Counter()
+    for sd in ([a.seed + i for i in range(6)] if big else [a.seed, a.seed + 1]):
+        argv = [exe, str(sd), "160" if big else "64"]
+        rc, out, err = vlib.run_split(argv, timeout=900, env=vlib.clean_env())
+        wit = "harness/t_walk.c %d %s" % (sd, argv[2])
+        if rc != 0 or not out.rstrip().endswith("END"):
+            res.violation("impl:walk-crash", "t_walk exited with %d: %s" % (rc, err[-600:]), witness=wit)
+            return
+        lines = out.splitlines()
+        bad = [l for l in lines if l.startswith("T walk") and l.split()[3] == "bad"]
+        tot["oracle_records"] += sum(1 for l in lines if l.startswith("T walk"))
+        tot["scenarios"] += sum(1 for l in lines if l.startswith("S ") and "profile=" in l)
+        for l in lines:
+            if l.startswith("S ") and "profile=" in l:
+                tot["profile" + l.split("profile=")[1].split()[0]] += 1
+        if bad:
+            f = bad[0].split()
+            what = f[4] if len(f) > 4 else "?"
+            key = "impl:walk-stop" if what == "stop" else "impl:walk-" + what.split("-block=")[0][:40]
+            res.violation(key, "heap walk oracle of t_walk.c (%d records), e.g. %s" % (len(bad), bad[0]), witness=wit + " : " + bad[0])
+        rc, mout = vlib.model_replay("walk", out)
+        mism = [l for l in mout.splitlines() if l.startswith("MISMATCH")]
+        done = [l for l in mout.splitlines() if l.startswith("DONE")]
+        for l in mout.splitlines():
+            if l.startswith("STATS walk"):
+                for kv in l.split()[2:]:
+                    k, v = kv.split("="); tot[k] += int(v)
+        if rc != 0 or not done:
+            res.violation("model-run:walk", "model replay (mode walk) failed: " + mout[-800:])
+        elif mism and not bad:
+            res.violation("corr:walk-visitor", "Model/Walk.v and mi_heap_visit_blocks disagree (%d walks), e.g. %s" % (len(mism), mism[0][:400]), witness=None)
+        elif mism:
+            log("[corr] %d walk disagreements, e.g. %s" % (len(mism), mism[0][:300]))
+    res.cov["walk_visitor"] = dict(tot)
+    res.cov["evaluations"] = res.cov.get("evaluations", 0) + tot["walks"]
+    log("[walk] %s" % dict(tot))
+
 
 def run(res, a):
     if a.replay:
         return apitrace.replay(res, "C12", a.replay)
-    vlib.proof_stage(res, "C12")
+    vlib.proof_stage(res, "C12", files=["C12", "C12walk"])
     big = a.tier == "thorough"
     plan = [("fillfree", 40 if big else 10, 600), ("boundary", 30 if big else 8, 400), ("heaps", 40 if big else 10, 400),
             ("span", 20 if big else 5, 300), ("realloc", 10 if big else 3, 300), ("huge", 6 if big else 2, 40)]
     for sd in ([a.seed, a.seed + 1, a.seed + 2] if big else [a.seed]):
         apitrace.run_traces(res, "C12", plan, sd, dump=True, tag="" if sd == a.seed else "_s%d" % sd)
+    run_walk(res, a)
     # mi_abandoned_visit_blocks: blocks left behind by terminated (virtual) threads, arena and OS-list segments
     import conc
     conc.run_conc(res, "C12", a.seed, a.tier, envs=[None, {"VERIF_NO_ARENA": "1"}, {"VERIF_BIG_ARENA": "1"}], nseeds_quick=16)
